@@ -10,7 +10,7 @@ from dataclasses import replace
 from typing import Any
 
 from .core import PKG, AnalysisError
-from .domain import (AV, BOTTOM, CONFIG, CONST, ENUM, ESC, IDENT, JSONREPR, NUM, PYREPR, RAW, RAW_NONSTR,
+from .domain import (DEEP, AV, BOTTOM, CONFIG, CONST, ENUM, ESC, IDENT, JSONREPR, NUM, PYREPR, RAW, RAW_NONSTR,
                      REPR_OF_ESC, UNKNOWN, WORD, Part, as_parts, concat, is_esc, join, join_all, lit, map_labels, num,
                      typed)
 from .pyindex import ClassInfo, FuncInfo, Module, PyIndex, dotted
@@ -425,7 +425,7 @@ class Interp:
 
     def inline_call(self, f: FuncInfo, args: list[AV], kwargs: dict[str, AV]) -> AV | None:
         """Call-site-sensitive evaluation of a small callee (keeps helper functions from smearing labels)."""
-        if f.qual in self._inline_stack or len(self._inline_stack) >= 3 or self._size(f) > 260 or f.parent is not None:
+        if f.qual in self._inline_stack or len(self._inline_stack) >= (4 if DEEP else 3) or self._size(f) > (400 if DEEP else 260) or f.parent is not None:
             return None
         a = f.node.args
         pos = [*a.posonlyargs, *a.args]
